@@ -5,7 +5,7 @@
 set -u
 WT=$1; NAME=$2; shift 2; ARGS="$*"
 export GOFLAGS=-mod=mod GOPROXY=off GOSUMDB=off GOTOOLCHAIN=local; unset GOWORK
-OUT=/verif/seeded/$NAME
+OUT=${SEED_ROOT:-/verif/seeded}/$NAME
 cd $WT || exit 2
 [ -s $OUT/patch.diff ] || git diff > $OUT/patch.diff
 go test -vet=off -count=1 $ARGS > /tmp/demo_with.txt 2>&1; W=$?
